@@ -32,6 +32,7 @@ RULE = ("case = (learn in on/off/ips/None, eval in on/ips/None, record subset of
         "to satisfy the mode's requirements; non-trivial = at least 2 interactions and (mode pair other than (on,on) or extra "
         "fields or batching); distinct = distinct canonical JSON of the case")
 ASSUMPTIONS = [
+    "a logged record whose 'probability' is None (LoggedInteraction's default for an unknown propensity) gets IPS weight 1 for that record only - coba divides by (probability or 1) per interaction in OpeRewards, DRReward and the VW label, and test_off_ips_actions_no_prob pins weight 1 for absent propensities; off-policy learn receives the None; a probability of 0 is not generated (nothing documents it)",
     "the reference evaluator encodes the SequentialCB docstring: on needs actions+rewards, off needs action+reward, ips needs actions+action+reward+probability and rewards the on-policy action with reward/probability if it equals the logged action else 0",
     "a missing 'probability' may be rejected or treated as 1 (coba's own test_off_ips_actions_no_prob pins the latter); eval='ips' with a learner implementing score may use score(context,actions,logged action)*reward/probability instead of a prediction (Learners notebook, 'Score Method'), and then may also accept an environment without 'actions'",
     "with eval=None the columns 'action' and 'probability' are neither required nor forbidden; a None probability may be recorded as None or omitted; learn_time is optional when learn=None",
@@ -473,7 +474,9 @@ def cases(draw, tier):
         rows.append({
             "ctx": context_value(ckind, d), "actions": actions,
             "rvals": [QUARTERS[d(len(QUARTERS))] for _ in range(nvals)], "argmax": d(4),
-            "log_action": log_action, "log_reward": QUARTERS[d(len(QUARTERS))], "log_prob": PROBS[d(len(PROBS))],
+            "log_action": log_action, "log_reward": QUARTERS[d(len(QUARTERS))],
+            # a record without propensity carries None (the default of LoggedInteraction); the first record more often
+            "log_prob": PROBS[d(len(PROBS))] if d(3 if not rows else 6) else None,
             "extras": {k: EXTRA_VALS[d(len(EXTRA_VALS))] for k in extras},
         })
     lazy = ckind in ("list", "dict") and coin()
@@ -504,6 +507,9 @@ def classes(case):
     else: out.append("accepted")
     if env["extras"]: out.append("extras")
     if env.get("lazy"): out.append("lazy-context")
+    if env["fields"]["probability"] and env["rows"]:
+        nn = sum(1 for r in env["rows"] if r["log_prob"] is None)
+        if 0 < nn < len(env["rows"]): out.append("mixed-None-propensities" + (":first-None" if env["rows"][0]["log_prob"] is None else ""))
     rec = case["record"]
     if "time" in ([rec] if isinstance(rec, str) else rec): out.append("record-time")
     return out
